@@ -33,7 +33,7 @@ for h, rec in zip(hs, outs):
             inp, exp = addmodel.remove_case(before, op[1], st['after'], st['outcome'])
             fn = 'run_remove'
         else:
-            lines = [ln.split('\t') for ln in op[1].splitlines()]
+            lines = [ln.split('\t') for ln in addmodel.ili_lines(op[1])]
             inp, exp = addmodel.ili_case(before, lines, st['after'], st['outcome'])
             fn = 'run_add_ili'
         with open(os.path.join(outdir, 'case_%d_%d.v' % (seed, k)), 'w') as fh:
